@@ -351,6 +351,9 @@ impl Core {
 /// (one simulated run at a time per process; reset at the start of every run).
 pub static LAGGARD: std::sync::atomic::AtomicUsize = std::sync::atomic::AtomicUsize::new(usize::MAX);
 
+/// Hook H5: when set, the in-memory transport pumps every outgoing stream eagerly (see h5_net.rs). Reset per run.
+pub static EAGER_NET: AtomicBool = AtomicBool::new(false);
+
 pub fn mark_current_task_slow() {
     if let Some(id) = shuttle::current::get_current_task() {
         let id: usize = id.into();
@@ -582,6 +585,7 @@ where
         .spawn(move || {
             reseed_entropy(seed);
             LAGGARD.store(usize::MAX, AO::SeqCst);
+            EAGER_NET.store(false, AO::SeqCst);
             FIRST_PANIC.with(|p| *p.borrow_mut() = None);
             let mut config = shuttle::Config::new();
             config.stack_size = stack;
